@@ -93,6 +93,14 @@ def run_history(ctx, h, which, mode):
     elif which == "eof_missing_cancel":
         ctx_.assume(h.S >= 1)
         go(h.md()); go(h.eof()); go(h.tick0()); go(h.cancel()); finish()
+    elif which == "abandoned_with_queued_pdu":
+        # NAK limit 1 with the abandon handler; the repeated EOF arrives in the call in which the NAK
+        # timer expiry is detected, so its ACK is queued when the transaction is abandoned
+        ctx_.assume(h.S >= 1)
+        go(h.md()); go(h.eof()); go(h.tick0())
+        h.w.tick(1)
+        go(h.eof())
+        finish()
     elif which == "busy_with_gap":
         go(h.md()); go(h.fd(o1, n1))
     elif which == "busy_waiting_missing":
@@ -111,8 +119,9 @@ def h_dest(ctx, N1, N2, mode, variant, abandon=False):
     w.witness = ctx.int("x", 0, hdst.OMAX)
     mode = ACK if mode == "ack" else UNACK
     imm = bool(ctx.choice("imm", 2)) if mode == ACK else True
-    table = {ConditionCode.FILE_SIZE_ERROR: FaultHandlerCode.ABANDON_TRANSACTION} if abandon else None
-    kw = {"immediate_nak": imm, "fault_table": table}
+    table = {ConditionCode.FILE_SIZE_ERROR: FaultHandlerCode.ABANDON_TRANSACTION,
+             ConditionCode.NAK_LIMIT_REACHED: FaultHandlerCode.ABANDON_TRANSACTION} if abandon else None
+    kw = {"immediate_nak": imm, "fault_table": table, "nak_limit": 1 if abandon else 2}
     fresh = DstScenario(ctx, w, mode=mode, cktype=ChecksumType.CRC_32, closure=False, rig_kwargs=kw)
     used = DstScenario(ctx, w, mode=mode, cktype=ChecksumType.CRC_32, closure=False, rig_kwargs=kw, S=fresh.S)
     # ---- the other activity: earlier transaction on `used`, or a sibling instance left busy
@@ -151,7 +160,7 @@ def h_dest(ctx, N1, N2, mode, variant, abandon=False):
                           "fresh": str(va)[:300], "used": str(vb)[:300]})
 
 
-def h_src(ctx, T, mode, hist):
+def h_src(ctx, T, mode, hist, hist_mode=None):
     """second transaction on a source handler that already ran one, vs a fresh handler"""
     from vf.harness.c10 import SRC_STATE
     w = World(ctx)
@@ -159,8 +168,10 @@ def h_src(ctx, T, mode, hist):
     closure = bool(ctx.choice("closure", 2))
     fresh = hsrc.SrcScenario(ctx, w, mode=mode, closure=closure, M=2)
     used = hsrc.SrcScenario(ctx, w, mode=mode, closure=closure, M=2, S=fresh.S)
-    # earlier transaction on `used` (scripted, symbolic file size), must end idle
-    used.put()
+    # earlier transaction on `used` (scripted, symbolic file size), must end idle; optionally in
+    # the other transmission mode (request-level override) with closure
+    hm = None if hist_mode is None else (ACK if hist_mode == "ack" else UNACK)
+    used.put(mode=hm, closure=None if hm is None else True)
     o = used.sm()
     hsrc.end_if_other_property(ctx, o)
     used.remember_conf()
@@ -173,7 +184,7 @@ def h_src(ctx, T, mode, hist):
     for evn in script:
         if used.rig.idle:
             break
-        if mode == UNACK and evn in ("NAK", "ACKEOF"):
+        if (hm if hm is not None else mode) == UNACK and evn in ("NAK", "ACKEOF"):
             evn = "SM"
         if evn == "TICK1":
             w.tick(1)
@@ -186,6 +197,8 @@ def h_src(ctx, T, mode, hist):
     ctx.covered("history_ended_idle")
     used.rig.user.ev.clear()
     used.rig.fh.ev.clear()
+    if hm is not None:
+        w.tick(ctx.int("dt_between", 0, 3))  # time passes between the two transactions
     a = fresh.put()
     b = used.put()
     ctx.prop("same_put_result", a.ret == b.ret and rigs.exc_name(a.exc) == rigs.exc_name(b.exc))
@@ -239,6 +252,14 @@ def plan(tier):
     specs.append(Spec("dest/ack/history/abandoned-by-fault/N2=3", "vf.harness.c11:h_dest",
                       {"N1": "file_size_fault", "N2": 3, "mode": "ack", "variant": "history", "abandon": True},
                       twin_share=0.02, obligations=["history_abandoned"]))
+    specs.append(Spec("dest/ack/history/abandoned-with-queued-pdu/N2=4", "vf.harness.c11:h_dest",
+                      {"N1": "abandoned_with_queued_pdu", "N2": 4, "mode": "ack", "variant": "history", "abandon": True},
+                      twin_share=0.02, obligations=["history_abandoned"]))
+    for mode, hmode in (("ack", "unack"), ("unack", "ack")):
+        specs.append(Spec(f"src/{mode}/second-transaction-after-completed-{hmode}-with-closure/T={2 if q else 3}",
+                          "vf.harness.c11:h_src",
+                          {"T": 2 if q else 3, "mode": mode, "hist": "completed", "hist_mode": hmode},
+                          twin_share=0.05, obligations=["history_ended_idle"]))
     for mode in ("ack", "unack"):
         for hist in ("completed", "cancelled", "retransmitted", "abandoned"):
             if mode == "unack" and hist in ("retransmitted", "abandoned"):
@@ -250,7 +271,7 @@ def plan(tier):
 
 
 BOUNDS = {
-    "quick": "receiver: 6 scripted earlier transactions on the same handler (completed, cancelled by request with a gap, cancelled by EOF(cancel) with a gap, file-size fault, File-Data-first then cancel, waiting for missing data then cancel, plus abandoned by fault handler) and 2 sibling instances left mid-transaction, all with symbolic sizes/offsets/lengths; followed by every sequence of N2=4 events over {Metadata, File Data, EOF, tick, ACK(Finished)} run on a fresh handler and on the used/accompanied one; sender: second transaction after completed / cancelled / retransmitted / abandoned first transaction, T=2 open events",
+    "quick": "receiver: 6 scripted earlier transactions on the same handler (completed, cancelled by request with a gap, cancelled by EOF(cancel) with a gap, file-size fault, File-Data-first then cancel, waiting for missing data then cancel, plus abandoned by fault handler) and 2 sibling instances left mid-transaction, all with symbolic sizes/offsets/lengths; followed by every sequence of N2=4 events over {Metadata, File Data, EOF, tick, ACK(Finished)} run on a fresh handler and on the used/accompanied one; sender: second transaction after completed / cancelled / retransmitted / abandoned first transaction, also after a first transaction in the OTHER transmission mode with closure and 0..3 timer intervals in between, T=2 open events; receiver history also 'abandoned while a PDU is queued'",
     "thorough": "N2=5, T=3",
 }
 OUTSIDE = "earlier histories other than the scripted ones; more than one earlier transaction; threads (handlers are single-threaded by documentation; 'sibling' = interleaved calls in one thread)"
